@@ -1,6 +1,7 @@
 (* DRAFT: Python float as far as modelled - binary64 via the standard library's SpecFloat (axiom-free, extractable) *)
 From Coq Require Import ZArith NArith List Bool SpecFloat.
 Import ListNotations.
+Require FloatText.          (* repr(float) / float(str): shortest digits that read back, CPython's layout *)
 Open Scope Z_scope.
 
 Definition prec := 53. Definition emax := 1024.
@@ -104,13 +105,8 @@ Fixpoint strip2 (fuel:nat) (m e:Z) : Z * Z := match fuel with O => (m, e) | S f 
 Fixpoint dec_digits (fuel:nat) (n:Z) (acc:list N) : list N :=
   match fuel with O => acc | S f => let acc' := Z.to_N (48 + n mod 10) :: acc in if n <? 10 then acc' else dec_digits f (n / 10) acc' end.
 Definition dec (n:Z) : list N := (if n <? 0 then [45%N] else []) ++ dec_digits (S (Z.to_nat (Z.log2 (Z.abs n)))) (Z.abs n) [].
-Definition show_float (f:spec_float) : list N :=
-  match f with
-  | S754_nan => [70;110;97;110]%N
-  | S754_infinity s => [70%N] ++ (if s then [45%N] else []) ++ [105;110;102]%N
-  | S754_zero s => [70%N] ++ (if s then [45%N] else []) ++ [48%N]
-  | S754_finite s m e => let '(m', e') := strip2 64 (Zpos m) e in [70%N] ++ (if s then [45%N] else []) ++ dec m' ++ [112%N] ++ dec e'
-  end.
+(* str(float): Python's repr - FloatText.repr_float; the printer finds digits for every double the harness has met, "??" would show if it did not *)
+Definition show_float (f:spec_float) : list N := match FloatText.repr_float f with Some l => l | None => [63; 63]%N end.
 
 (* sum() of CPython >= 3.12 on a list whose running result has just become a float: Neumaier compensation for
    float items, plain addition of small ints, fall back to plain left-to-right addition after a big int *)
